@@ -1,5 +1,5 @@
 CONSTANTS ConstIds = {"C1"}
-WrapSet = "none"
+WrapSet = "few"
 SPECIFICATION Spec
 INVARIANT Sound
 CONSTRAINT Emit
